@@ -9,12 +9,202 @@ package certstore
 //@   pure
 //@   ensures result == cs.latestCertificate
 
+// ---------------------------------------------------------------------------------------------------------------
+// C09 / C10: the store. Keys: /certs/<i>, /power/<i>, /latestCert, /firstInstance under the /certstore namespace.
+
+//@ pred nextInstanceOf(cs *Store) = ite(cs.latestCertificate == nil, cs.firstInstance, cs.latestCertificate.GPBFTInstance + 1)
+
+//@ pred storeInv(cs *Store) = cs.powerTableFrequency > 0
+//@ pred noWrap(cs *Store) = cs.latestCertificate == nil || cs.latestCertificate.GPBFTInstance < 18446744073709551614
+
 //@ func (*Store).Put
+//@   property C09, C10
+//@   requires storeInv(cs)
 //@   modifies auto
+//@   maypanic
 //@   assumes result == nil ==> cs.latestCertificate != nil && cs.latestCertificate.GPBFTInstance >= old(cert.GPBFTInstance)
 //@   assumes cs.latestCertificate != nil ==> cs.latestCertificate.GPBFTInstance < 18446744073709551615
 //@   assumes old(cs.latestCertificate) != nil ==> cs.latestCertificate != nil && cs.latestCertificate.GPBFTInstance >= old(cs.latestCertificate.GPBFTInstance)
+//@   ensures[latest_pointer_only_advances_to_the_admitted_successor] cs.latestCertificate == old(cs.latestCertificate)
+//@        || (result == nil && cs.latestCertificate == cert && (old(noWrap(cs)) ==> old(cert.GPBFTInstance) == old(nextInstanceOf(cs))))
+//@   ensures[failed_put_changes_nothing_in_memory] result != nil ==> cs.latestCertificate == old(cs.latestCertificate) && cs.latestPowerTable == old(cs.latestPowerTable)
+//@   at Put 1
+//@     before[only_the_immediate_successor_is_admitted] noWrap(cs) ==> cert.GPBFTInstance == nextInstanceOf(cs) && cert.GPBFTInstance >= cs.firstInstance
+//@     before[delta_reproduces_the_committed_table] res(MakePowerTableCID, 1, 1) == nil && res(MakePowerTableCID, 1, 0) == cert.SupplementalData.PowerTable
+//@          && argOf(MakePowerTableCID, 1, 0) == newPowerTable
+//@     before[new_table_is_the_latest_table_with_the_delta_applied] ite(len(cert.PowerTableDelta) > 0,
+//@          res(ApplyPowerTableDiffs, 1, 1) == nil && newPowerTable == res(ApplyPowerTableDiffs, 1, 0) && argOf(ApplyPowerTableDiffs, 1, 0) == cs.latestPowerTable
+//@             && len(argOf(ApplyPowerTableDiffs, 1, 1)) == 1 && argOf(ApplyPowerTableDiffs, 1, 1)[0] == cert.PowerTableDelta,
+//@          newPowerTable == cs.latestPowerTable)
+//@     before[never_an_empty_table] len(newPowerTable) != 0
+//@     before[certificate_written_under_its_own_instance_key] arg(1) == res(keyForCert, 1) && argOf(keyForCert, 1, 1) == cert.GPBFTInstance && res(MarshalCBOR, 1) == nil
+//@   at putPowerTable 1
+//@     before[checkpoint_after_the_certificate] dominatedBy(Put, 1) && res(Put, 1) == nil
+//@     before[checkpoint_is_the_table_of_the_next_instance] cert.GPBFTInstance < 18446744073709551615 ==> (cert.GPBFTInstance + 1) % cs.powerTableFrequency == 0 && arg(2) == cert.GPBFTInstance + 1 && arg(3) == newPowerTable
+//@   at writeInstanceNumber 1
+//@     before[latest_pointer_is_written_last] dominatedBy(Put, 1) && res(Put, 1) == nil
+//@          && (cert.GPBFTInstance < 18446744073709551615 && (cert.GPBFTInstance + 1) % cs.powerTableFrequency == 0 ==> res(putPowerTable, 1) == nil)
+//@     before[latest_pointer_names_the_new_certificate] arg(2) == certStoreLatestKey && arg(3) == cert.GPBFTInstance
+//@   at chansend 1
+//@     before[subscriber_is_drained_before_the_send] dominatedBy(chanselect, 1) && dominatedBy(writeInstanceNumber, 1)
+
+//@ func (*Store).GetRange
+//@   property C09
+//@   requires end < 18446744073709551615
+//@   modifies auto
+//@   maypanic
+//@   ensures[complete_range_or_not_found] result1 == nil ==> len(result0) == end - start + 1
+//@   ensures[never_more_than_the_range] start <= end && end - start < 9223372036854775807 ==> len(result0) <= end - start + 1
+//@   loop 1
+//@     invariant start <= end && i >= start && len(bCerts) == i - start && cap(bCerts) == end - start + 1 && i <= end + 1 && end - start < 9223372036854775807
+//@   at Get 1
+//@     before[reads_the_certificates_in_instance_order] arg(1) == res(keyForCert, 1) && argOf(keyForCert, 1, 1) == i && i == start + len(bCerts)
+//@   loop 2
+//@     invariant len(certs) == len(bCerts)
+//@   at UnmarshalCBOR 1
+//@     before[decodes_each_stored_certificate_into_its_slot] arg(0) == &certs[j] && argOf(NewReader, 1, 0) == bCert
 
 //@ func (*Store).GetPowerTable
+//@   property C09
+//@   requires storeInv(cs)
 //@   modifies auto
+//@   maypanic
 //@   assumes result1 == nil ==> isTableFor(result0, instance)
+//@   ensures[no_table_before_the_first_or_beyond_the_next_instance] result1 == nil && old(noWrap(cs)) ==> instance >= cs.firstInstance && instance <= old(nextInstanceOf(cs))
+//@   loop 1
+//@     invariant len(deltas) == len(certificates) && forall(k, 0, iter, deltas[k] == certificates[k].PowerTableDelta)
+//@   at readPowerTable 1
+//@     before[starts_from_the_nearest_checkpoint_at_or_below] arg(2) == max(instance - instance % cs.powerTableFrequency, cs.firstInstance)
+//@   at GetRange 1
+//@     before[replays_every_delta_between_checkpoint_and_instance] arg(2) == argOf(readPowerTable, 1, 2) && arg(3) == instance - 1 && res(readPowerTable, 1, 1) == nil
+//@   at ApplyPowerTableDiffs 1
+//@     before[applies_the_stored_deltas_in_order_to_the_checkpoint] res(GetRange, 1, 1) == nil && arg(0) == res(readPowerTable, 1, 0)
+//@          && len(arg(1)) == len(certificates) && forall(k, 0, len(certificates), arg(1)[k] == certificates[k].PowerTableDelta)
+//@   at return 3
+//@     before[cached_table_only_for_the_next_instance] (noWrap(cs) ==> instance == nextInstanceOf(cs)) && len(arg(0)) != 0 && arg(0) == cs.latestPowerTable
+
+// create: initial power table first, then the first-instance marker (C10); reopen derives the latest table from
+// the datastore, never from a value cached by the caller (C09).
+//@ func CreateStore
+//@   property C09, C10
+//@   modifies auto
+//@   maypanic
+//@   at putPowerTable 1
+//@     before[fresh_store_only] res(readInstanceNumber, 1, 1) != nil && arg(2) == firstInstance && arg(3) == initialPowerTable && len(initialPowerTable) != 0
+//@   at writeInstanceNumber 1
+//@     before[marker_written_after_the_initial_table] dominatedBy(putPowerTable, 1) && res(putPowerTable, 1) == nil && arg(2) == certStoreFirstKey && arg(3) == firstInstance
+
+//@ func OpenOrCreateStore
+//@   property C09, C10
+//@   modifies auto
+//@   maypanic
+//@   ensures result1 == nil ==> result0 != nil && result0.powerTableFrequency == 1440
+//@   at writeInstanceNumber 1
+//@     before[marker_written_after_the_initial_table] dominatedBy(putPowerTable, 1) && res(putPowerTable, 1) == nil && arg(2) == certStoreFirstKey && arg(3) == firstInstance
+//@          && argOf(putPowerTable, 1, 2) == firstInstance && argOf(putPowerTable, 1, 3) == initialPowerTable
+//@   at GetPowerTable 1
+//@     before[latest_table_is_derived_from_the_datastore] len(cs.latestPowerTable) == 0 && (noWrap(cs) ==> arg(2) == cs.latestCertificate.GPBFTInstance + 1)
+
+//@ func OpenStore
+//@   property C09, C10
+//@   modifies auto
+//@   maypanic
+//@   at GetPowerTable 1
+//@     before[latest_table_is_derived_from_the_datastore] len(cs.latestPowerTable) == 0
+//@          && (noWrap(cs) ==> arg(2) == ite(cs.latestCertificate == nil, cs.firstInstance, cs.latestCertificate.GPBFTInstance + 1))
+
+// wipe: the tombstone is written first and deleted last; every other key is deleted while it exists; reopening
+// resumes the wipe on the datastore that DeleteAll wrote the tombstone to.
+//@ func maybeContinueDelete
+//@   property C10
+//@   modifies auto
+//@   maypanic
+//@   at Delete 1
+//@     before[tombstone_outlives_every_other_key] key != tombstoneKey && res(Has, 1, 0) && res(Has, 1, 1) == nil && arg(1) == key
+//@   at Delete 2
+//@     before[tombstone_is_deleted_last] arg(1) == tombstoneKey && res(Has, 1, 0)
+
+//@ func (*Store).DeleteAll
+//@   property C10
+//@   modifies auto
+//@   maypanic
+//@   at maybeContinueDelete 1
+//@     before[tombstone_is_written_before_anything_is_deleted] dominatedBy(Put, 1) && res(Put, 1) == nil && argOf(Put, 1, 1) == tombstoneKey && arg(1) == cs.ds
+
+//@ func open
+//@   property C10
+//@   harness harness/certstore_wipe_test.go
+//@   modifies auto
+//@   maypanic
+//@   ensures[a_store_being_opened_has_no_cached_table] result1 == nil ==> result0 != nil && result0.powerTableFrequency == 1440 && len(result0.latestPowerTable) == 0
+//@   at readInstanceNumber 1
+//@     before[an_interrupted_wipe_is_resumed_on_the_stores_own_datastore] (dominatedBy(maybeContinueDelete, 1) && argOf(maybeContinueDelete, 1, 1) == cs.ds && res(maybeContinueDelete, 1) == nil)
+//@          || (dominatedBy(maybeContinueDelete, 2) && argOf(maybeContinueDelete, 2, 1) == cs.ds && res(maybeContinueDelete, 2) == nil)
+
+// ---------------------------------------------------------------------------------------------------------------
+// C17: snapshots.
+
+//@ func io.ReadFull
+//@   trusted io.ReadFull fills the whole buffer or returns an error
+//@   modifies buf[]
+//@   ensures err == nil ==> n == len(buf)
+//@   ensures 0 <= n && n <= len(buf)
+
+// A block is read only if its announced length can be allocated; a block that is cut short is an error and is never
+// mistaken for the clean end of the stream.
+//@ func readSnapshotBlockBytes
+//@   property C17
+//@   harness harness/snapshot_hugeblock_test.go
+//@   modifies auto
+//@   at return 0
+//@     before[a_cut_block_is_never_a_clean_end_of_stream] dominatedBy(ReadUvarint, 1) && (arg(1) == io.EOF ==> arg(1) == res(ReadUvarint, 1, 1))
+//@     before[a_block_is_returned_whole] arg(1) == nil ==> res(ReadUvarint, 1, 1) == nil && res(CopyN, 1, 1) == nil && res(CopyN, 1, 0) == res(ReadUvarint, 1, 0)
+
+//@ func (hashWriter).Write
+//@   property C17
+//@   modifies auto
+//@   maypanic
+//@   at Write 2
+//@     before[every_byte_goes_to_the_digest_and_to_the_destination] dominatedBy(Write, 1) && res(Write, 1, 1) == nil && arg(0) == p && argOf(Write, 1, 0) == p
+//@   at return 0
+//@     before[a_failed_write_is_reported] res(Write, 1, 1) != nil ==> arg(1) != nil
+
+//@ func (*Store).ExportSnapshot
+//@   property C17
+//@   requires storeInv(cs)
+//@   modifies auto
+//@   maypanic
+//@   at WriteTo 1
+//@     before[header_is_version_1_first_latest_and_the_initial_table] header.Version == 1 && header.FirstInstance == cs.firstInstance && header.LatestInstance == latestInstance
+//@          && header.InitialPowerTable == res(GetPowerTable, 1, 0) && res(GetPowerTable, 1, 1) == nil && argOf(GetPowerTable, 1, 2) == cs.firstInstance
+//@     before[written_through_the_hashing_writer_onto_the_destination] hashWriter.writer == writer && hashWriter.hasher == res(New256, 1, 0)
+//@   at writeSnapshotBlockBytes 1
+//@     before[certificates_first_to_latest_in_order_as_stored] arg(0) == argOf(WriteTo, 1, 1) && argOf(Get, 1, 1) == res(keyForCert, 1) && argOf(keyForCert, 1, 1) == i
+//@          && argOf(NewBuffer, 1, 0) == res(Get, 1, 0) && arg(1) == res(NewBuffer, 1) && res(Get, 1, 1) == nil && i <= latestInstance
+//@   at loopback 1
+//@     before[no_certificate_is_skipped] (prev(i) < 18446744073709551615 ==> i == prev(i) + 1) && res(writeSnapshotBlockBytes, 1, 1) == nil
+//@   at Sum 1
+//@     before[digest_is_over_the_bytes_written] arg(0) == nil && dominatedBy(WriteTo, 1) && res(WriteTo, 1, 1) == nil
+
+//@ func importSnapshotToDatastoreWithTestingPowerTableFrequency
+//@   property C17
+//@   harness harness/snapshot_delta_test.go
+//@   modifies auto
+//@   maypanic
+//@   at OpenOrCreateStore 1
+//@     before[header_agrees_with_the_manifest] m != nil ==> m.InitialInstance == header.FirstInstance
+//@     before[store_created_from_the_header] arg(2) == header.FirstInstance && arg(3) == header.InitialPowerTable
+//@   at Put 1
+//@     before[certificates_are_contiguous_from_the_first_instance_and_within_the_header] i == cert.GPBFTInstance && i <= header.LatestInstance
+//@     before[certificate_bytes_stored_under_their_instance] arg(1) == res(keyForCert, 1) && argOf(keyForCert, 1, 1) == cert.GPBFTInstance && arg(2) == certBytes
+//@   at putPowerTable 1
+//@     before[checkpoint_is_the_verified_table_after_this_certificate] (cert.GPBFTInstance < 18446744073709551615 ==> arg(2) == cert.GPBFTInstance + 1) && arg(3) == res(PowerTableMapToArray, 2)
+//@          && res(checkPowerTable, 1) == nil && argOf(checkPowerTable, 1, 0) == arg(3) && argOf(checkPowerTable, 1, 1) == cert.SupplementalData.PowerTable
+//@   at loopback 1
+//@     before[every_delta_reproduces_the_table_its_certificate_commits_to] ptCid == cert.SupplementalData.PowerTable
+//@          && (len(cert.PowerTableDelta) > 0 ==> ptCid == res(MakePowerTableCID, 3, 0) && res(MakePowerTableCID, 3, 1) == nil && argOf(MakePowerTableCID, 3, 0) == res(PowerTableMapToArray, 1))
+//@          && (len(cert.PowerTableDelta) == 0 ==> ptCid == prev(ptCid))
+//@     before[checkpoints_are_written_with_their_certificate] cert.GPBFTInstance < 18446744073709551615 && (cert.GPBFTInstance + 1) % cs.powerTableFrequency == 0 ==> res(putPowerTable, 1) == nil
+//@     before[instances_are_consecutive] i == prev(i) + 1 || prev(i) == 18446744073709551615
+//@   at writeInstanceNumber 1
+//@     before[latest_pointer_only_for_a_complete_snapshot] latestCert != nil && latestCert.GPBFTInstance == header.LatestInstance && arg(2) == certStoreLatestKey && arg(3) == header.LatestInstance
